@@ -57,7 +57,7 @@ mod proofs {
 
     // @harness id=C11 tier=thorough unwind=8 timeout=2400 fs=4096
     // @desc shorter inputs are zero-padded (decode(encode(v[..2])) = [v0, v1, 0, 0]); encode_polynomial reduces every coefficient mod t and decode_polynomial returns it
-    // @bounds BFV N=4, t=17; input length 2; polynomial of 3 arbitrary u64 coefficients
+    // @bounds BFV N=4, t=17; input length 2; polynomial of 3 arbitrary 16-bit coefficients
     // @funcs BatchEncoder::encode, BatchEncoder::decode, BatchEncoder::encode_polynomial, BatchEncoder::decode_polynomial
     // @stubs HeContext::get_context_data -> linear search over the literal chain; alloc::sync::Arc::drop_slow -> no-op
     #[kani::proof]
@@ -72,7 +72,7 @@ mod proofs {
         let k: usize = kani::any(); kani::assume(k < 4);
         kani::cover!(v[1] != 0);
         assert!(d[k] == if k >= 2 { 0 } else { v[k] });
-        let w: [u64; 3] = kani::any();
+        let w16: [u16; 3] = kani::any(); let w = [w16[0] as u64, w16[1] as u64, w16[2] as u64];   // 16-bit coefficients: the full-width reduction is engine M's (Modulus::reduce)
         let pp = be.encode_polynomial_new(&w);
         assert!(pp.coeff_count() == 3 && pp.data()[1] == w[1] % T);
         let back = be.decode_polynomial_new(&pp);
